@@ -1,8 +1,8 @@
 SPECIFICATION Spec
 CONSTANTS
   LeaseIds = {1}
-  Versions = {1, 2, 3}
-  BadHost = {3}
+  Versions = {1, 2}
+  BadHost = {2}
   BadAlways = {}
   MaxSubmit = 3
   MaxLeaseWon = 2
@@ -10,7 +10,8 @@ CONSTANTS
   MaxUpdate = 1
   MaxFetchErr = 1
   MaxClose = 1
-  MaxDropped = 1
+  MaxDropped = 0
+  MaxSwallow = 1
 VIEW view
 INVARIANTS TypeOK AtMostOneReply AnnounceOK QuiescentAllReplied QueueDiscipline
 CHECK_DEADLOCK FALSE
